@@ -61,7 +61,9 @@ func findSafePrime(size int) *big.Int {
 		select {
 		case result = <-resultChan:
 			simhook.Yield("findSafePrime:before-stop")
-			stop <- struct{}{}
+			// Close instead of sending: nobody receives from stop any more once the generator has
+			// shut itself down because of an error in one of its workers, and a send would block forever.
+			close(stop)
 			break
 		case err = <-errChan:
 			panic(err.Error())
